@@ -30,3 +30,22 @@ Theorem C01_bulk_updates_order_independent : forall (A S : Type) (f : A -> S -> 
   forall l l', Permutation l l' -> forall s, fold_right f s l = fold_right f s l'.
 Proof. exact @fold_commutative_order_independent. Qed.
 Print Assumptions C01_bulk_updates_order_independent.
+
+(* replicas that are at different positions of the same log: what the one behind has emitted is a prefix of
+   what the one ahead has emitted, and applying the rest brings it to the same state with exactly the missing
+   output — "everywhere" includes nodes that are catching up or were restarted and replay *)
+From RV Require Import IrcProofs.Refine.
+Theorem C01_lagging_replica_is_prefix : forall e sv l1 l2 sv2 o,
+  run_out e sv (l1 ++ l2) = Some (sv2, o) ->
+  exists sv1 o1 o2, run_out e sv l1 = Some (sv1, o1) /\ run_out e sv1 l2 = Some (sv2, o2) /\ o = (o1 ++ o2)%list.
+Proof.
+  intros e sv l1 l2 sv2 o H. rewrite run_out_app in H.
+  destruct (run_out e sv l1) as [[sv1 o1]|]; [|discriminate].
+  destruct (run_out e sv1 l2) as [[sv2' o2]|] eqn:E2; [|discriminate].
+  injection H as <- <-. exists sv1, o1, o2. auto.
+Qed.
+Print Assumptions C01_lagging_replica_is_prefix.
+
+Theorem C01_outputs_deterministic : forall e sv es r1 r2, run_out e sv es = r1 -> run_out e sv es = r2 -> r1 = r2.
+Proof. intros e sv es r1 r2 <- <-. reflexivity. Qed.
+Print Assumptions C01_outputs_deterministic.
